@@ -5,7 +5,7 @@
 (* the contract operators of the specification.  Failures are printed as   *)
 (* JSON, as in TraceCircuit.                                               *)
 (***************************************************************************)
-EXTENDS Integers, Sequences, FiniteSets, TLC, Json, IOUtils, BigNat, RowOps, TransportOps, DensityOps
+EXTENDS Integers, Sequences, FiniteSets, TLC, Json, IOUtils, BigNat, RowOps, TransportOps, DensityOps, NetQuadratic
 
 VARIABLES l, fails
 T == ndJsonDeserialize(IOEnv.TRACE)
@@ -58,14 +58,33 @@ HierFails ==
     (IF CoordInside(Ev.bins, Ev.demands, Ev.cells, Ev.limX, Ev.limY) THEN {} ELSE {F("C16", <<"reported coordinate outside the bin", Ev.op>>, "coord")})
 Hier == Is("Hier") /\ fails' = HierFails /\ l' = l + 1
 
+(* C17: the continuous solver honours real-valued weights *)
+NetSolveFails ==
+    (IF Ev.finite THEN {} ELSE {F("C17", <<"non-finite solution">>, "net-finite")}) \cup
+    (IF Ev.finite /\ ~Stationary(Ev.x0, Ev.nets, Ev.n, IF Ev.tol >= 6 THEN 2 ELSE 16)
+     THEN {F("C17", <<"initial star solution is not the weighted least-squares optimum", Ev.x0>>, "net-optimum")} ELSE {})
+NetSolve == Is("NetSolve") /\ fails' = NetSolveFails /\ l' = l + 1
+\* scaling all weights and penalty strengths by a common factor leaves the solution unchanged: bitwise for powers of
+\* two, within tolerance (positions x 128) otherwise
+SeqClose(a, b, tol) == Len(a) = Len(b) /\ \A i \in 1..Len(a) : Abs(a[i] - b[i]) <= tol
+NetScaleFails ==
+    IF Ev.dyadic
+    THEN (IF Ev.b0 = Ev.s0 /\ Ev.b1 = Ev.s1 /\ Ev.b2 = Ev.s2 THEN {}
+          ELSE {F("C17", <<"solution changed when all weights were scaled by 2^k", Ev.k>>, "net-scale-dyadic")})
+    \* the linear initial star model always; the later (re-weighted) steps only for the clique model, which is continuous in
+    \* the current placement (bound-to-bound and star models pick extreme pins: a tie broken differently is not an error)
+    ELSE (IF SeqClose(Ev.b0, Ev.s0, 8) /\ (Ev.model # 2 \/ (SeqClose(Ev.b1, Ev.s1, 16) /\ SeqClose(Ev.b2, Ev.s2, 16))) THEN {}
+          ELSE {F("C17", <<"solution changed beyond tolerance when all weights were scaled", Ev.k>>, "net-scale")})
+NetScale == Is("NetScale") /\ fails' = NetScaleFails /\ l' = l + 1
+
 AlgoBegin == Is("AlgoBegin") /\ fails' = {} /\ l' = l + 1
 \* an execution that died: memory error, abort or hang inside the algorithm
 BadFate == /\ (Is("Abort") \/ Is("Sanitizer") \/ Is("Timeout"))
-           /\ fails' = {F(IF Ev.scen = "t1d" THEN "C14" ELSE IF Ev.scen = "transport" THEN "C13" ELSE IF Ev.scen = "density" THEN "C16" ELSE "C12",
+           /\ fails' = {F(IF Ev.scen = "t1d" THEN "C14" ELSE IF Ev.scen = "transport" THEN "C13" ELSE IF Ev.scen = "density" THEN "C16" ELSE IF Ev.scen = "netw" THEN "C17" ELSE "C12",
                           <<Ev.e, Ev.stderr>>, Ev.scen \o "-fate")}
            /\ l' = l + 1
 
-Next == RowHist \/ Transport \/ T1d \/ Hier \/ AlgoBegin \/ BadFate
+Next == RowHist \/ Transport \/ T1d \/ Hier \/ NetSolve \/ NetScale \/ AlgoBegin \/ BadFate
 Spec == Init /\ [][Next]_<<l, fails>>
 
 RECURSIVE SeqOfSet(_)
